@@ -149,11 +149,11 @@ func (c *Ctx) OverdraftSendAllConditional(ob *core.Obligation) {
 // an error literal, directly or in the account helper it calls) has, in the checker's arm for
 // that kind, a diagnostic emission conditional on the send-all flag.
 func (c *Ctx) SendAllRejectionsDiagnosed(ob *core.Obligation) {
-	sendAll := c.P.SSAFunc(c.P.LookupFunc("internal/interpreter", "(*programState).sendAll"))
-	if sendAll == nil {
-		ob.Unknown("anchor:interpreter.sendAll", "-", "send-all traversal not found")
+	ir := c.IRoles(ob)
+	if ir == nil || ir.SendAll == nil {
 		return
 	}
+	sendAll := ir.SendAll
 	chk := c.checkerSwitchFn(ob, "Source")
 	if chk == nil {
 		return
